@@ -526,6 +526,33 @@ fn def_method_impl(
                         quote!()
                     };
 
+                    // `self` has been moved into the surrogate by now: the real function gets the surrogate
+                    // (re-pinned for `Pin<&mut Self>`), also where the listed parameter expressions say `self`.
+                    let unmock_input_eval_arm = attr.get_unmock_fn(index).map(
+                        |UnmockFn {
+                             path: unmock_path,
+                             params: unmock_params,
+                         }| {
+                            let unmock_expr = match unmock_params {
+                                None => quote! {
+                                    #unmock_path(#self_to_delegator, #fn_params) #opt_dot_await
+                                },
+                                Some(UnmockFnParams { params }) => {
+                                    let params = util::replace_self_value(
+                                        quote! { #params },
+                                        &quote! { #self_to_delegator },
+                                    );
+                                    quote! {
+                                        #unmock_path(#params) #opt_dot_await
+                                    }
+                                }
+                            };
+                            quote! {
+                                #prefix::private::Continuation::Unmock => #unmock_expr,
+                            }
+                        },
+                    );
+
                     quote! {
                         let (__cont, #eval_pattern_all) = #prefix::polonius::_polonius!(|#self_ref| -> #polonius_return_type {
                             match #prefix::private::eval::<#mock_fn_path #eval_generic_args>(#self_ref, #inputs_eval_params) {
@@ -538,6 +565,7 @@ fn def_method_impl(
                                 __answer_fn(__self, #fn_params)
                             }
                             #default_impl_input_eval_arm
+                            #unmock_input_eval_arm
                             cont => cont.report(__self)
                         }
                     }
